@@ -243,3 +243,34 @@ Theorem C05_guards_satisfiable :
   p_shape 2 2 1 (mkP [[1; -2]; [0.5; 3]] [[-1; 1]] [0.3; -0.7] [0.1; -0.2] [0.4]).
 Proof. exact (conj b_shape_nonvacuous p_shape_nonvacuous). Qed.
 Print Assumptions C05_guards_satisfiable.
+
+(* ---------------------------------------------------------------------------------------------
+   Links to C01 / C02 (QModel.States; proofs: QTheory.Links, module L3).  The distribution the sampler
+   leaves invariant is the state's own Born distribution: [mod2 z] = |z|^2 = re^2 + im^2,
+   Z = normalization (wavefunctions) / dm_normalization = tr rho (density matrix) over all 2^nv
+   basis states.  Each clause: invariant under every k-step power of the block-Gibbs kernel, sums
+   to one, strictly positive. *)
+From QTheory Require Links.
+Import Links.L3.
+
+Theorem C05_born_distribution_invariant_wavefunctions : forall nv nh (am ph : brbm) k s',
+  b_shape nv nh am -> length s' = nv ->
+  let Z := normalization ROps am (all_bits nv) in
+  let qc := fun s => mod2 (cplx_psi ROps am ph s) / Z in      (* ComplexWaveFunction *)
+  let qp := fun s => mod2 (pos_psi ROps am s) / Z in          (* PositiveWaveFunction *)
+  (sum_bits nv (fun s => qc s * kpow ROps nv (b_kernel ROps am) k s s') = qc s' /\
+   sum_bits nv qc = 1 /\ (forall s, 0 < qc s)) /\
+  (sum_bits nv (fun s => qp s * kpow ROps nv (b_kernel ROps am) k s s') = qp s' /\
+   sum_bits nv qp = 1 /\ (forall s, 0 < qp s)).
+Proof. exact Links.L3.born_invariant_wavefunctions. Qed.
+Print Assumptions C05_born_distribution_invariant_wavefunctions.
+
+(* density matrix: diag(rho) / tr(rho); the second hypothesis is C02's shape guard on the phase net *)
+Theorem C05_born_distribution_invariant_density_matrix : forall nv nh na (am ph : prbm) k s',
+  p_shape nv nh na am -> length (pU ph) = length (pU am) -> length s' = nv ->
+  let Z := dm_normalization ROps am (all_bits nv) in
+  let d := fun s => fst (dm_rho ROps am ph s s) / Z in
+  sum_bits nv (fun s => d s * kpow ROps nv (p_kernel ROps am) k s s') = d s' /\
+  sum_bits nv d = 1 /\ (forall s, 0 < d s).
+Proof. exact Links.L3.born_invariant_density_matrix. Qed.
+Print Assumptions C05_born_distribution_invariant_density_matrix.
